@@ -15,8 +15,9 @@ macro_rules! fwd_harness {
         #[kani::proof]
         #[kani::unwind(5)]
         fn $name() {
-            let quiet: bool = kani::any();
-            let inner: P<$msgty> = P::new(quiet);
+            let mode: u8 = kani::any();
+            kani::assume(mode < 4);
+            let inner: P<$msgty> = P::new(mode);
             let id: usize = kani::any();
             let src: usize = kani::any();
             let msg: $msgty = $mkmsg;
@@ -36,8 +37,10 @@ macro_rules! fwd_harness {
             assert!(got == &*ds);
             assert!(wout.len() == dout.len());
             assert!(out_eq(&wout, &dout));
-            kani::cover!(!quiet);
-            kani::cover!(quiet);
+            kani::cover!(mode == 0);
+            kani::cover!(mode == 1);
+            kani::cover!(mode == 2);
+            kani::cover!(mode == 3);
         }
     };
     (@call on_msg, $inner:ident, $w:ident, $id:ident, $src:ident, $msg:ident, $t:ident, $ds:ident, $dout:ident, $wst:ident, $wout:ident) => {
@@ -59,8 +62,9 @@ macro_rules! start_harness {
         #[kani::proof]
         #[kani::unwind(5)]
         fn $name() {
-            let quiet: bool = kani::any();
-            let inner: P<$msgty> = P::new(quiet);
+            let mode: u8 = kani::any();
+            kani::assume(mode < 4);
+            let inner: P<$msgty> = P::new(mode);
             let id: usize = kani::any();
             let mut dout: Out<P<$msgty>> = Out::new();
             let ds = inner.on_start(Id::from(id), &mut dout);
@@ -70,7 +74,8 @@ macro_rules! start_harness {
             let got: &PS<$msgty> = $unwrap_state(&ws);
             assert!(got == &ds);
             assert!(out_eq(&wout, &dout));
-            kani::cover!(!quiet);
+            kani::cover!(mode == 0);
+            kani::cover!(mode == 2);
         }
     };
 }
@@ -85,7 +90,7 @@ fwd_harness!(k_fwd_choice_never_timeout, wa_cn, ws_cn, us_cn, M, kani::any(), on
 fwd_harness!(k_fwd_choice_never_random, wa_cn, ws_cn, us_cn, M, kani::any(), on_random);
 
 // ---- Choice<A1, A2>: probe in the L position and in the R position (the other side is a second,
-// always-quiet probe type so that a mix-up of the two arms is visible)
+// always-silent second actor type so that a mix-up of the two arms is visible)
 #[derive(Clone, Debug, PartialEq, Eq)]
 pub struct Q;
 impl Actor for Q {
